@@ -143,8 +143,12 @@ NoDFArgs(st, args) == \A a \in args : ~(Tracked(st, a) /\ TrackedUnder(st, a) # 
 NoneIsDirOnDisk(st, paths) == paths \cap SeqToSet(st.dirs) = {}
 (* writing these paths into the working tree would have to replace a directory by a file or a file by a directory, *)
 (* which cannot be done without touching what is there: such a command may be refused                              *)
+(* (the same holds when the paths conflict among themselves: a staging area or snapshot that names both `lib` and *)
+(* `lib/a` - add keeps the entry of a file that has meanwhile become a directory unless it is named - cannot be     *)
+(* written into any working tree)                                                                                  *)
 WtConflict(st, paths) ==
-    \E p \in paths : p \in SeqToSet(st.dirs) \/ \E q \in DOMAIN st.wt : Under(q, p)
+    \/ \E p \in paths : p \in SeqToSet(st.dirs) \/ \E q \in DOMAIN st.wt : Under(q, p)
+    \/ \E p, q \in paths : Under(q, p)
 ArgsAllTracked(st, args) == \A a \in args : SelTracked(st, a) # {}
 RestrictWt(wt, keep) == [p \in (DOMAIN wt) \cap keep |-> wt[p]]
 
@@ -457,6 +461,13 @@ RefClausesW(s, e, t, connS, connT) ==
         has == nm \in Branches(S)
         hc == HeadHasCommit(S)
         RestSame(ex) == \A b \in Branches(S) \ ex : b \in Branches(T) /\ T.refs[b] = S.refs[b]
+        (* reset --hard with well-formed, in-range arguments can still fail, after it has moved the branch, when the *)
+        (* working tree holds a directory where the snapshot has a file (or the reverse): that is a failure to write, *)
+        (* not a refusal for invalid arguments, and C18's last sentence does not speak about it (C08_Accept leaves    *)
+        (* the same cases alone).  Without the reflog observation the position cannot be resolved: no verdict.        *)
+        hardMayFail == e.ev = "reset" /\ "mode" \in DOMAIN e /\ e.mode = "hard"
+                         /\ (~(ok0 /\ HasObs(s, "reflog"))
+                              \/ (PosValid(s, e) /\ WtConflict(S, PathsOf(Flatten(S, Obj(S, TargetId(s, e)).tree)))))
     IN
     <<
     Cl("C10_Create", {"C10"}, e.ev = "branch" /\ ok0 /\ Dom(e) /\ hc /\ ~has,
@@ -502,8 +513,8 @@ RefClausesW(s, e, t, connS, connT) ==
             /\ t.obs.reflog.res = "ok"
             /\ Len(View(t)) >= Len(View(s)) + 1
             /\ View(t)[1].full = HeadId(T) /\ View(t)[1].kind = "checkout"),
-    Cl("C18_RefusedUnchanged", {"C18"}, IsCmd(e) /\ Refused(e) /\ RefusedUnchangedApplies(e),
-        IsCmd(e) /\ Refused(e) /\ RefusedUnchangedApplies(e) => Unchanged(s, t))
+    Cl("C18_RefusedUnchanged", {"C18"}, IsCmd(e) /\ Refused(e) /\ RefusedUnchangedApplies(e) /\ ~hardMayFail,
+        IsCmd(e) /\ Refused(e) /\ RefusedUnchangedApplies(e) /\ ~hardMayFail => Unchanged(s, t))
     >>
 
 ConfigClauses(s, e, t) ==
